@@ -169,10 +169,10 @@ def audit(pid, timeout=900):
     txt = _clean(p.stdout + p.stderr)
     res = {t: None for _, t in ths}
     for m in re.finditer(
-        r"'([^']+(?:'[^' ]*)*)' depends on axioms: \[([^\]]*)\]", txt, flags=re.S
+        r"^'([^\n]+?)' depends on axioms: \[([^\]]*)\]", txt, flags=re.M | re.S
     ):
         res[m.group(1)] = [a.strip() for a in m.group(2).split(',') if a.strip()]
-    for m in re.finditer(r"'(\S+)' does not depend on any axioms", txt):
+    for m in re.finditer(r"^'([^\n]+?)' does not depend on any axioms", txt, flags=re.M):
         res[m.group(1)] = []
     return res, txt
 
